@@ -158,12 +158,21 @@ func cmdCheck(args []string) int {
 			r := p.VerifyFn(t.fn, VerifyOpts{Sweep: t.sweep})
 			mu.Unlock()
 			<-sem
+			r.skip = func(o *Obligation) bool {
+				if o.candID >= 0 {
+					return false
+				}
+				if o.Level == "safety" && !(t.sweep || r.SafetyTag == *prop) {
+					return true
+				}
+				return o.Level == "property" && o.Tag != "" && o.Tag != *prop
+			}
 			solveAll(r, timeout, 2*time.Second)
 			// anti-flake: a failure of anything that passed on the pinned tree is re-examined
 			// from scratch (candidate invariants included) with generous time limits
 			retry := false
 			for _, o := range r.Obls {
-				if o.candID < 0 && o.Kind != "vacuity" && o.Result.Verdict != "unsat" && (inBase[o.ID] || o.Level == "aux" || *writeBase) {
+				if o.candID < 0 && o.Kind != "vacuity" && o.Result.Verdict != "unsat" && o.Result.Verdict != "skipped" && (inBase[o.ID] || o.Level == "aux" || *writeBase) {
 					retry = true
 				}
 			}
